@@ -1,7 +1,7 @@
 """C04 - no invalid, forbidden or out-of-limit request ever reaches the driver"""
 from sa.core import rule, prop_info
 from sa.lib import *  # noqa: F401,F403
-from sa.lib import ReachingDefs, is_method_call, func_calls, enclosing_tries, attr_stores, handler_catches_all
+from sa.lib import ReachingDefs, is_method_call, func_calls, enclosing_tries, attr_stores, handler_catches_all, origins
 from sa.model import AnchorMissing, kwarg, const_str
 from sa import roles
 
@@ -21,10 +21,14 @@ prop_info(
 
 
 def _driver_calls_setparam(f):
-    """getattr(moduleobj, 'write_' + pname)(value)"""
+    """getattr(moduleobj, 'write_' + pname)(value), also through a local alias of the bound method"""
     res = []
     for c in calls_in(f.node):
         g = c.func
+        if isinstance(g, ast.Name):
+            al = [o for o in origins(g, f.node) if isinstance(o, ast.Call)]
+            if len(al) == 1:
+                g = al[0]
         if isinstance(g, ast.Call) and dotted(g.func) == 'getattr' and len(g.args) >= 2:
             a = g.args[1]
             pre = const_str(a.left) if isinstance(a, ast.BinOp) else (str(a.values[0].value) if isinstance(a, ast.JoinedStr) and a.values and isinstance(a.values[0], ast.Constant) else None)
@@ -77,7 +81,8 @@ def gates_in_order(ctx):
         # the looked-up name is what is used for the parameter and the driver
         nm = src(lookups[0].targets[0])
         for c in drv:
-            ctx.check(nm in src(c.func), f'{f.qualname}:driver addressed by looked-up name', c, f'write_ + {nm}',
+            fsrc = ' '.join(src(o) for o in origins(c.func, f.node)) if isinstance(c.func, ast.Name) else src(c.func)
+            ctx.check(nm in fsrc, f'{f.qualname}:driver addressed by looked-up name', c, f'write_ + {nm}',
                       f'the driver method name is not built from the looked-up attribute name `{nm}`', f)
     chain.append(_refusal(ctx, f, cfg, drv_ids, lambda s: s.endswith(' is None') and 'module' not in s, 'NoSuchParameterError', 'parameter-exists refusal', '<pobj> is None'))
     chain.append(_refusal(ctx, f, cfg, drv_ids, lambda s: '.constant is not None' in s, 'ReadOnlyError', 'constant refusal', '<pobj>.constant is not None'))
@@ -271,6 +276,9 @@ def wrapper_order(ctx):
     # announced value provenance
     funnel = roles.cache_funnel(m)
     for c in func_calls(ww.node, attr=funnel.name):
+        in_handler = any(part in ('handler', 'finalbody') for t, part in enclosing_tries(c))
+        ctx.check(not in_handler, f'{ww.qualname}:announce only after a successful write', c, 'the funnel call is not in a handler / finally',
+                  'the write wrapper announces from a handler or finally block: a refused or failed write changes the cache and emits an update', ww)
         a = c.args[1] if len(c.args) > 1 else kwarg(c, 'value')
         if a is None:
             ctx.undecided(f'{ww.qualname}:announced value is validated', c, 'no value argument', ww)
